@@ -178,6 +178,20 @@ CHECKS['C18'] = dict(level=MC, ref='4 C18',
          'residual below tol; undetected breakdown in eigs; optimistic error estimate up to 2000 tol). calls needing > 4000 controller iterations are skipped and counted. bounded: sectors of dimension 2..120/200, '
          '80/420 maps x (7 expmv + 2 eigs + 2 lin_solver)',
     technique='TLA+ controller model (Krylov, KrylovMC incl. liveness) + TLC + trace validation of controller iterations recorded from real expmv calls; measured verdicts against dense references')
+CHECKS['C12'] = dict(level=MC, ref='4 C12',
+    text='EnvCover.tla is the design-level account of WHY the environments of a finite open PEPS are exact: every environment object (CTM tensor, boundary MPS, NTU cluster) stands for a region of the '
+         'lattice, held as a bag of sites; the recursions of EnvCTM.reset_/expand_outward_ and EnvBoundaryMPS.__init__ and the formulas of the measure functions are transcribed, and TLC (EnvCoverMC) shows on '
+         'every lattice up to 4x4 that no site is ever counted twice, that every formula counts every site exactly once iff its tensors are exact, that exactness arrives after exactly max(Nx,Ny)-1 expansions, and '
+         'which boundaries each set-up string provides. PepsMeasure.tla (on PepsOps / Fock) computes <psi|O|psi> and <psi|psi> of a registered integer Fock vector exactly, with every Jordan-Wigner sign. Binding '
+         '(TracePepsEnv, traces recorded from the real code): (i) finite PEPS built by shallow integer circuits; every number returned by measure_1site / measure_nn / measure_2site / measure_nsite / measure_2x2 / '
+         'measure_line / measure_nsite_exact of EnvBoundaryMPS (7 set-up strings, 4 opts_var), EnvCTM (expanded exactly the number of times the spec demands, and once more) and EnvBP (circuits on a spanning tree, tree '
+         'bonds) must equal the exact rational; (ii) evolution_step_ with a non-binding truncation (6 NTU clusters, BP) must give, after ONE rescaling, exactly ApplyOp(gate, registered state), with truncation error '
+         'within TolTrunc; (iii) every bond metric of the 6 NTU clusters (and BP) on every bond: Hermiticity defect and smallest eigenvalue against TolMetric; (iv) dependency probes: the set of PEPS tensors each CTM '
+         'tensor (after k = 0..max expansions), boundary MPS and NTU metric really depends on equals the region / cluster of EnvCover.',
+    note='measured numbers enter as the Gaussian integer nearest to value * <psi|psi> (must be within 1e-8 relative), metric and truncation numbers in units of 1e-12 - floating-point observations; the expected values, '
+         'signs, regions and clusters are computed by TLC. BP nn values only on tree bonds; EnvCTM as a truncation environment on finite lattices (bond_metric / update_bond_) is outside the statement and not '
+         'exercised; sampling not covered. bounded: lattices 1x2..3x3, 2x4, 4x2, 1x5 (<= 9 modes; probes up to 4x5), 8 families, 48/640 states of up to ~100 amplitudes, <psi|psi> <= 2^26, ~25/60 measured operators per state',
+    technique='TLA+ coverage model of the environments (EnvCover, EnvCoverMC) + exact Fock-space expectation values (PepsMeasure) + TLC + trace validation of recorded measure / bond_metric / evolution_step_ calls and of dependency probes')
 NA = {}
 m = {"version": 1, "setup_cmd": "true",
      "hooks": {"guard": "YASTN_VERIF", "enable": "no source hooks so far: the harness wraps the public API from outside and imports yastn live from /repo (override: VERIF_REPO)",
